@@ -359,4 +359,42 @@ example : resolveMethod (some "Stacked") = none ∧ (resolveMethod (some "stacke
 
 end Spellings
 
+/-! ## 6. Variant locality -/
+
+section Variants
+
+variable {β γ α : Type}
+
+theorem broadcastVariants_get (n : Nat) (datas : List γ) (k : Nat) (hk : k < n) (hne : datas ≠ []) :
+    (broadcastVariants n datas)[k]? = datas[min k (datas.length - 1)]? := by
+  have hlen : 0 < datas.length := List.length_pos_iff.mpr hne
+  have hall : ∀ j, (datas[min j (datas.length - 1)]?).isSome = true := by
+    intro j
+    have : min j (datas.length - 1) < datas.length := by omega
+    simp [List.getElem?_eq_getElem this]
+  unfold broadcastVariants
+  have hmap : (List.range n).filterMap (fun k => datas[min k (datas.length - 1)]?)
+      = (List.range n).map (fun k => (datas[min k (datas.length - 1)]?).get (hall k)) := by
+    rw [← List.filterMap_eq_map']
+    apply List.filterMap_congr
+    intro j _
+    simp
+  rw [hmap, List.getElem?_map, List.getElem?_range hk]
+  simp
+
+/-- **variant locality**: output variant `k` is the simulation of MODEL variant `k` on DATA variant `min k last` -- its own targets, its
+own shocks, its own initial condition -- and of nothing else -/
+theorem simulateVariants_get (run : β → γ → α) (models : List β) (datas : List γ) (k : Nat) (m : β) (d : γ)
+    (hm : models[k]? = some m) (hd : datas[min k (datas.length - 1)]? = some d) :
+    (simulateVariants run models datas)[k]? = some (run m d) := by
+  have hk : k < models.length := (List.getElem?_eq_some_iff.mp hm).1
+  have hne : datas ≠ [] := by
+    intro h; subst h; simp at hd
+  unfold simulateVariants
+  rw [List.getElem?_zipWith, hm, broadcastVariants_get _ _ _ hk hne, hd]
+
+example : simulateVariants (fun (m d : Nat) => 10 * m + d) [1, 2, 3] [7, 8] = [17, 28, 38] := by decide
+
+end Variants
+
 end IrisVerif.C07Frames
